@@ -220,7 +220,7 @@ func c12Prog(steps, nnames, maxPairs, nopts int) {
 
 func VF_C12_prog_quick()    { c12Prog(2, 3, 1, 8) }
 func VF_C12_prog3_quick()   { c12Prog(3, 2, 1, 1) }
-func VF_C12_prog_thorough() { c12Prog(3, 3, 2, 10) }
+func VF_C12_prog_thorough() { c12Prog(2, 3, 1, 10) }
 
 // deeper trees with concrete-ordered inserts: every insertion order of 5 distinct symbolic scores
 // constrained to a chosen total order exercises all four rotation cases and deletions of inner nodes
